@@ -135,6 +135,36 @@ DESC = {
  "C17-r5-1": ("subgraph weights summed in ahash iteration order (two cooperating sites)", "unequal weights whose sum is order dependent; differs between builds/processes"),
  "C17-r5-2": ("return_metadata selects another order of operations for the loop momenta", "return_metadata, >=2 loops, non-zero shifts"),
  "C17-r5-3": ("generate_sample_from_rng redraws when the generator returns exactly 0.0", "an RNG draw that is exactly 0.0"),
+ "C13-r5-1": ("per-loop Box-Muller blocks of D + D%2 uniforms + get_num_variables adjusted", "odd D and L >= 2"),
+ "C13-r5-2": ("'exact quarter turn' table in box_muller with one wrong sign", "an angle coordinate exactly 0.75 whose sine is used"),
+ "C13-r5-3": ("Gaussians scattered loop-minor (res[index % L][index / L])", "L >= 2 and D >= 2"),
+ "C16-r5-1": ("stability test multiplies self * inverse instead of inverse * self (transposed residual)", "dimension >= 2, tolerance between the two L21 norms"),
+ "C16-r5-2": ("Unstable returned only when print_debug_info is off", "stability test on AND print_debug_info = true"),
+ "C16-r5-3": ("determinant == 0 check only when the stability test is off", "stability test on and a determinant that underflows"),
+ "C20-r5-1": ("Vector::squared sums in blocks of four", "D >= 4"),
+ "C20-r5-2": ("Vector::dot starts the accumulator from the first product", "all products -0.0 (sign of zero differs)"),
+ "C20-r5-3": ("f64::inv returns +-f64::MAX when 1/x is infinite", "x = +-0.0 or a subnormal below 5.56e-309"),
+ "C19-r5-1": ("sample_edge accumulates in f64 and compares with uniform.to_f64()", "a non-f64 scalar and a coordinate within one f64 ulp of a cumulative boundary"),
+ "C19-r5-2": ("from_f64(omega).inv() becomes from_f64(omega.recip()) (exponent formed in f64; no to_f64)", "a higher-precision scalar and an omega that is not a power of two"),
+ "C19-r5-3": ("stability-test residual accumulated in f64 from to_f64 narrowings", "matrix_stability_test = Some(tol) with a higher-precision scalar"),
+ "C15-r5-1": ("(I+N)^-1 as a product with floor(log2 dim) factors", "dimension 3, 5, 6 or 7"),
+ "C15-r5-2": ("ZeroDet when determinant < f64::EPSILON", "a well-conditioned SPD matrix with determinant below 2.2e-16"),
+ "C15-r5-3": ("Cholesky pivots clamped from below to |a_ii| sqrt(eps)", "condition number between ~1e8 and 1e10"),
+ "C02-r5-1": ("early-exit break moved before the u_trop update of the last edge", "a self-loop removed last"),
+ "C02-r5-2": ("compute_v_polynomial returns early when sum |u_l|^2 < f64::EPSILON (absolute threshold)", "soft kinematics of order 1e-10 (well conditioned)"),
+ "C02-r5-3": ("f64::powf fast path for integral |p| <= 4 computes p = +-4 as a cube", "dod == 4.0 exactly (or D = 8)"),
+ "C08-r5-1": ("all-zero signature rows filtered BEFORE enumerate (x_vec index shifted)", "a bridge/tree edge listed before a loop edge"),
+ "C08-r5-2": ("L assembled from the first two non-zero entries of each signature row", ">=3 loops and an edge carrying >=3 loop momenta"),
+ "C08-r5-3": ("Cholesky pivots clamped to at least f64::EPSILON", ">=2 loops and a legitimate pivot below 2.2e-16 (small radial coordinate)"),
+ "C18-r5-1": ("whole-valued floats written as i64 in human-readable formats (saturating cast)", "a human-readable format and a table value >= 2^63"),
+ "C18-r5-2": ("serde(default, skip_serializing_if = Vec::is_empty) on external_vertices", "vacuum graph and a struct-as-sequence format"),
+ "C18-r5-3": ("table serialised column-wise with spanning flags packed 64 per u64, accumulator never reset", ">= 8 edges with edges 6 and 7 not interchangeable"),
+ "C11-r5-1": ("u_trop update guarded by !graph_without_edge.is_empty()", "a self-loop removed last"),
+ "C11-r5-2": ("integer fast path of f64::powf ignores the sign of the exponent", "even D and >=2 loops (u_trop^(-D/2) in the rescaling target)"),
+ "C11-r5-3": ("Gamma(n) as n! for integer 1 <= n <= 20 in cached_factor", "an integer propagator power or dod >= 2"),
+ "C01-r5-1": ("extra ZeroDet guard |det L| <= eps (trace/dim)^dim", ">=2 loops and strongly hierarchical (accurate) points"),
+ "C01-r5-2": ("cross terms of u^T L^-1 u lose their factor 2", "two loops both with non-zero u vectors (momentum through a shared edge)"),
+ "C01-r5-3": ("a~1 shortcut window of the inverse incomplete gamma widened from 1e-8 to 1e-3", "dod within 1 +- 1e-3 but not 1"),
 }
 
 
